@@ -89,13 +89,21 @@ def project(obj, mode: str) -> Dict[str, Any]:
 class Obj:
     """One real playing-phase object plus its mode."""
 
-    def __init__(self, o: int, mode: str, me: int, deal, trump: int, decl: int):
+    def __init__(self, o: int, mode: str, me: int, deal, trump: int, decl: int,
+                 redeal: bool = False):
         (Bid, Card, Contract, Hands, Obs, Pair, Player, PP, PPH, Suit,
          Vul) = _imports()
         self.o, self.mode, self.me = o, mode, me
         contract = make_contract(trump, decl, 1 + (o + trump + decl) % 7)
         if mode == 'plain':
             self.obj = PP(contract)
+        elif mode == 'hands' and redeal:
+            # a Hands object that is re-dealt: made for another deal, its four
+            # public seat attributes assigned afterwards
+            other = [sorted(deal[(k + 1) % 4]) for k in range(4)]
+            h = make_hands(other)
+            h.north, h.east, h.south, h.west = [{card(c) for c in deal[k]} for k in range(4)]
+            self.obj = PPH(contract, h)
         elif mode == 'hands':
             self.obj = PPH(contract, make_hands(deal))
         else:
@@ -222,7 +230,8 @@ def board_trace(job) -> List[Dict[str, Any]]:
     (tid, deal, trump, decl, plays, style, sd, inject, observers) = job
     r = rng('board', sd, tid)
     evs: List[Dict[str, Any]] = []
-    man = Obj(0, 'hands', NOSEAT, deal, trump, decl)
+    man = Obj(0, 'hands', NOSEAT, deal, trump, decl,
+              redeal=(sum(map(ord, tid)) + trump + decl) % 4 == 0)
     evs.append(ev_new(tid, man, deal, trump, decl))
     plain = Obj(1, 'plain', NOSEAT, deal, trump, decl)
     evs.append(ev_new(tid, plain, deal, trump, decl))
